@@ -147,8 +147,13 @@ def run(ctx):
                     marks.append(s)
     # (a direct set_published() on the FDT's own FileDesc - TOI 0 - is not a listed object)
     marks += [s for s in call_sites(hp, lambda p, c: p == FD + "::set_published") if any(z.startswith("var:self.files") for z in hps.sources(s.expr[2][0]))]
-    if not marks or not qpush:
-        raise model.AnchorMissing("Fdt::publish: marking (%d) / queueing (%d) sites not found" % (len(marks), len(qpush)))
+    if not qpush:
+        raise model.AnchorMissing("Fdt::publish: queueing site not found")
+    if not marks:
+        # the who-may-call clause above names the place that marks them now (if any); the pairing itself is gone
+        r3.violation("publish: files marked published only after the instance is queued",
+                     "Fdt::publish queues an instance but no longer marks the files it lists as published itself: either they are never marked "
+                     "(FullFDT objects are never sent) or they are marked where no instance is queued (sent without being announced)", loc(hp.sp))
     for s in marks:
         key = "publish: files marked published only after the instance is queued"
         if all(q.bb != s.bb and hpf.dominates(q.bb, s.bb) for q in qpush):
